@@ -129,11 +129,12 @@ CLAIMED.update({
              "equivalence half is a differential check with little TLA+ content."),
     "C19": dict(
         text="spec/MC_cli.tla: the detect/inspect loop as a state machine (every listed file processed in order - liveness) over every "
-             "file list up to 2/3 of 8 file kinds plus one list per class; MergeRc from MosCollection!Accepts/Expected for every "
-             "collection x --incomplete x --non-strict x -o. mosromgr.cli.main(argv) is called in-process on real files; TLC "
+             "file list up to 2/3 of 8 file kinds plus one list per class x 6 source modes (-f, -b/-p, -b/-p/-s, -b/-k, -b alone, "
+             "nothing: usage error = status 2); MergeRcMode from MosCollection!Accepts/Expected for every collection x --incomplete x "
+             "--non-strict x -o x source mode. mosromgr.cli.main(argv) is called in-process on real files; TLC "
              "(Trace_Cli) judges markers, order, exit status, and that the bytes written equal the library's merged serialisation.",
         design="6/C19", technique="TLA+ state machine checked by TLC (safety + liveness); replay through cli.main; TLC trace judge",
-        note="Trusted: TLC; harness/cli.py (file rendering, line parsing). S3 options of the CLI are not exercised."),
+        note="Trusted: TLC; harness/cli.py (file rendering, line parsing); the in-memory bucket for the -b/-p/-s/-k source modes."),
     "C20": dict(
         text="spec/MosExpose.tla gives, for every abstract message, the target story/item, the source IDs in message order and the "
              "carried elements each class must expose; every distinct message of the bounded generators (24 classes, blank/unknown/"
